@@ -75,7 +75,7 @@ pub struct Group {
     pub kind: TK,
 }
 
-pub const NAMES: [&str; 2] = ["a", "b"];
+pub const NAMES: [&str; 2] = ["a", "ab"]; // one name is a textual prefix of the other on purpose
 pub const SPELLINGS: [&str; 6] = ["abs", "rel", "rel-dot", "abs-dslash", "abs-dot", "rel-updown"];
 const ZF: &str = "/zf";
 const ZD: &str = "/zd";
